@@ -19,6 +19,8 @@
 (*                 HashMap before the fix), walked by the test reporters   *)
 (*   console-detail generic_summary.rs:55 / common.rs:341: HashMap by      *)
 (*                 resource / rule, detail lines                           *)
+(*   cfn-console   reporters/validate/cfn.rs single_line: BTreeMap by        *)
+(*                 resource name (HashMap before the fix)                  *)
 (*   at-least-one  eval.rs:673 report_at_least_one: HashMap, one key per   *)
 (*                 call (called per left-hand value)                       *)
 (*   rulegen       rulegen.rs: HashMap of HashMap of HashSet, printed      *)
@@ -59,6 +61,8 @@ Sites == {
   [name |-> "summary",        container |-> "btree", sorted |-> FALSE, out |-> "bytes", inline |-> FALSE],
   [name |-> "test-rules",     container |-> "index", sorted |-> FALSE, out |-> "bytes", inline |-> FALSE],
   [name |-> "console-detail", container |-> "hash",  sorted |-> FALSE, out |-> "lines", inline |-> FALSE],
+  \* cfn.rs single_line: resource blocks; the one-off Code excerpt makes a line depend on the walk
+  [name |-> "cfn-console",    container |-> "btree", sorted |-> FALSE, out |-> "lines", inline |-> TRUE],
   [name |-> "at-least-one",   container |-> "hash1", sorted |-> FALSE, out |-> "bytes", inline |-> FALSE],
   \* rulegen also walks a hash set *inside* one printed line (the values of an IN list)
   [name |-> "rulegen",        container |-> "hash",  sorted |-> TRUE,  out |-> "lines", inline |-> TRUE]}
@@ -82,7 +86,8 @@ Watch == Exposed = {}
 \* the design before fix commits <get_by_rules IndexMap> and <rulegen sorted>: a hash table feeding
 \* byte-compared output, and one walked inside a printed line, are exposed
 OldSites == {[name |-> "test-rules-before", container |-> "hash", sorted |-> FALSE, out |-> "bytes", inline |-> FALSE],
-             [name |-> "rulegen-before",    container |-> "hash", sorted |-> FALSE, out |-> "lines", inline |-> TRUE]}
+             [name |-> "rulegen-before",    container |-> "hash", sorted |-> FALSE, out |-> "lines", inline |-> TRUE],
+             [name |-> "cfn-console-before", container |-> "hash", sorted |-> FALSE, out |-> "lines", inline |-> TRUE]}
 OldExposed == \A s \in OldSites : IF s.out = "bytes" THEN \E p \in Perms : Render(s, p) # Render(s, perm)
                                                       ELSE \E p \in Perms : LinesOf(s, p) # LinesOf(s, perm)
 =============================================================================
